@@ -25,6 +25,10 @@ fn main() {
             Ok(v) => println!("{:?}", v),
             Err(e) => println!("ERR {}", e),
         },
+        "ignored" => match serde_saphyr::from_str::<serde::de::IgnoredAny>(&s) {
+            Ok(_) => println!("ok"),
+            Err(e) => println!("ERR {}", e.without_snippet()),
+        },
         "maxdoc" => {
             let n: usize = std::env::args().nth(2).and_then(|x| x.parse().ok()).unwrap_or(1);
             let mut b = vcheck::opts::BudgetD::default_budget();
